@@ -6,7 +6,8 @@
   python3 lib/gen_res.py N out.cases [--seed S] [--class a|b|c|d|e|r] [--allow ...]
 
 Classes: a structured (grammar-built responses, every delivery mode)   b limits (hard limit 16..64)
-         c callback scripts   d gaps   e malformed (random bytes, bit flips)   r request+response
+         c callback scripts   d gaps   e malformed (random bytes, bit flips)   r request+response (in order)
+         x request+response random merges
 Named exclusion flags (all False = excluded by default; the MODEL still has to agree when they are switched on,
 unless the library crashes):
   f1           allow chunk boundaries that make the LF-CR heuristic of RES_HEADERS fire in the split run only:
@@ -16,11 +17,19 @@ unless the library crashes):
                REQUEST_COMPLETE, the final RESPONSE_BODY_DATA(NULL) call made by htp_tx_state_response_complete_ex,
                RESPONSE_COMPLETE, TRANSACTION_COMPLETE, and the receiver hooks flushed from there. The transaction is
                freed and the library keeps using it (ASan heap-use-after-free, C01 finding; the model sets c_fault)
+  stale_receiver  allow, in request+response histories, STOP/ERROR from the REQUEST_HEADER_DATA / REQUEST_TRAILER_DATA
+               callbacks (hooks 3, 7) and hard limits small enough to kill a request inside its header block. In both
+               cases the request side stops with the raw-data receiver still registered and
+               in_current_receiver_offset behind in_current_read_offset; when the request is later completed from
+               the RESPONSE side (RES_IDLE "finalize dangling request", htp_response.c:1224) the receiver is flushed
+               with in_current_data still pointing into the caller's previous, long gone request chunk: ASan
+               heap-use-after-free in the callback (new C01 finding; with an OK callback the same dangling pointer is
+               handed over with length 0)
 """
 import sys, random
 
 CR, LF = 13, 10
-DEFAULT_FLAGS = {"f1": True, "destroy_uaf": False}
+DEFAULT_FLAGS = {"f1": True, "destroy_uaf": False, "stale_receiver": False}
 RES_HOOKS = [10, 11, 12, 13, 14, 15, 16, 17, 18]
 
 
@@ -432,7 +441,74 @@ def gen_reqres(rng, n, flags):
     return out[:n]
 
 
-CLASSES = {"a": gen_structured, "b": gen_limits, "c": gen_callbacks, "d": gen_gaps, "e": gen_malformed, "r": gen_reqres}
+def gen_reqres_merge(rng, n, flags):
+    """random merges of a chunked request stream and a chunked response stream (legal and illegal orders: responses
+    before their request is complete, responses without request, gaps on either side), all personalities, small
+    limits now and then"""
+    out = []
+    while len(out) < n:
+        k = rng.choice([1, 2, 2, 3, 4])
+        kinds = [rng.choice(["get", "get", "head", "post", "connect", "expect", "get09", "put"]) for _ in range(k)]
+        rq = b"".join(request(rng, x) for x in kinds)
+        if rng.random() < 0.15:
+            rq = rq[:rng.randint(1, len(rq))]
+        rs = b""
+        for x in kinds[:rng.choice([k, k, k, max(0, k - 1), k + 1])] + (["get"] if rng.random() < 0.1 else []):
+            if x == "head":
+                rs += rng.choice([b"HTTP/1.1 200 OK\r\nContent-Length: 10\r\n\r\n", b"HTTP/1.1 304 NM\r\n\r\n",
+                                  b"HTTP/1.1 200 OK\r\nTransfer-Encoding: chunked\r\n\r\n"])
+            elif x == "connect":
+                rs += rng.choice([b"HTTP/1.1 200 Connection established\r\n\r\n", b"HTTP/1.1 403 Forbidden\r\nContent-Length: 1\r\n\r\nx",
+                                  b"HTTP/1.1 407 Auth\r\nContent-Length: 0\r\n\r\n", b"HTTP/1.1 299 Odd\r\nX: y\r\n\r\n",
+                                  b"HTTP/1.1 500 E\r\n\r\nclose-delimited"])
+            elif x == "expect":
+                rs += rng.choice([b"HTTP/1.1 100 Continue\r\n\r\nHTTP/1.1 200 OK\r\nContent-Length: 0\r\n\r\n",
+                                  b"HTTP/1.1 417 Expectation Failed\r\nContent-Length: 0\r\n\r\n",
+                                  b"HTTP/1.1 400 Bad\r\nTransfer-Encoding: chunked\r\n\r\n1\r\nx\r\n0\r\n\r\n", b"HTTP/1.1 499 X\r\n\r\n"])
+            elif x == "get09":
+                rs += rng.choice([b"<html>old style body</html>", b"HTTP/1.0 200 OK\r\n\r\nbody"])
+            else:
+                rs += response(rng, rng.random() < 0.25)
+        def chunks(stream, op):
+            if not stream:
+                return []
+            cuts = rng.sample(range(1, len(stream)), min(len(stream) - 1, rng.choice([0, 1, 2, 3, 5]))) if len(stream) > 1 else []
+            if op == "S" and not flags["f1"] and f1_hazard(stream, cuts):
+                cuts = []
+            return ops_for(stream, cuts, op)
+        qs, ss = chunks(rq, "Q"), chunks(rs, "S")
+        ops = ["O"]
+        bias = rng.choice([0.5, 0.7, 0.9, 0.3])
+        while qs or ss:
+            if qs and (not ss or rng.random() < bias):
+                ops.append(qs.pop(0))
+            else:
+                ops.append(ss.pop(0))
+            r = rng.random()
+            if r < 0.02:
+                ops.append("s%d" % rng.randint(1, 9))
+            elif r < 0.04:
+                ops.append("q%d" % rng.randint(1, 9))
+            elif r < 0.05:
+                ops.append("c")
+            elif r < 0.06:
+                ops.append("F")
+        entries = []
+        if rng.random() < 0.3:
+            for _ in range(rng.choice([1, 2])):
+                h = rng.choice([0, 1, 3, 4, 5, 7, 9, 10, 11, 12, 13, 14, 16, 17, 18])
+                a = rng.choice([1, 2, 3, 5, 4])
+                if h in (3, 7) and a in (2, 3) and not flags["stale_receiver"]:
+                    a = 1
+                entries.append((h, rng.randint(0, 2), a))
+        # a request that dies of the hard limit inside its header block leaves the receiver un-flushed: see stale_receiver
+        small = rng.random() < 0.15 and flags["stale_receiver"]
+        cfg = mkcfg(p=rng.randint(0, 9), hard=rng.randint(16, 64)) if small else rnd_cfg(rng, rng.random() < 0.3)
+        out.append(mkcase(ops + tail_ops(rng), cfg, mkscript(entries)))
+    return out[:n]
+
+
+CLASSES = {"x": gen_reqres_merge, "a": gen_structured, "b": gen_limits, "c": gen_callbacks, "d": gen_gaps, "e": gen_malformed, "r": gen_reqres}
 
 
 def gen_cases(rng, tier="quick", flags=None, with_requests=False, classes=None, total=None):
@@ -441,7 +517,7 @@ def gen_cases(rng, tier="quick", flags=None, with_requests=False, classes=None, 
     total = total or (6000 if tier == "quick" else 60000)
     share = {"a": 0.40, "b": 0.15, "c": 0.15, "d": 0.10, "e": 0.20}
     if with_requests:
-        share = {"a": 0.30, "b": 0.12, "c": 0.13, "d": 0.10, "e": 0.15, "r": 0.20}
+        share = {"a": 0.25, "b": 0.10, "c": 0.10, "d": 0.10, "e": 0.15, "r": 0.15, "x": 0.15}
     if classes:
         share = {k: 1.0 / len(classes) for k in classes}
     out = []
